@@ -101,6 +101,7 @@ func (rs *GRPCReplicationServer) GetWALStream(_ *pb.GetWALStreamRequest, stream 
 
 func (rs *GRPCReplicationServer) SendReplicationMessage(transactionGroup []byte) {
 	// send a replication message to each replica
+	verifhook.At("Repl.fanout.enter")
 	rs.mu.RLock()
 	for ip, channel := range rs.StreamChannels {
 		log.Debug("sending a replication message to %s", ip)
